@@ -428,6 +428,16 @@ def family_starve(tier, seed, n=None):
             ex = {"op": "explore", "call": mcall(), "paths": ["o1.a", "o1.b"], "max_paths": mp}
             ops += [dict(ex), {"op": "call", "call": mcall()}, {"op": "set", "p": "o1.c", "v": bits(-4, 3)}, dict(ex)]
         out.append({"id": "S14/%s/%s/%d" % (kind, "core" if core else "s%d" % seed, t), "world": one(fields, [blk("c1", body)]), "ops": ops, "tags": []})
+    # free-standing calls whose roots OVERLAP: a non-random member passed together with its owner is random in the call, in
+    # either order of the arguments (the second order is the witness of known finding C14-overlapping-roots-order)
+    for t, roots in enumerate([["o1", "o1.s"], ["o1.s", "o1"]]):
+        sub = {"base": "", "fields": [fld("x", 2, False)], "blocks": []}
+        top = {"base": "", "fields": [fld("a", 1, False), {"name": "s", "kind": "obj", "cls": "S", "rand": False}], "blocks": []}
+        world = {"classes": {"S": sub, "A": top}, "population": [{"id": "o1", "cls": "A"}]}
+        call = {"kind": "free", "roots": roots, "owner": "", "inline": []}
+        ops = [{"op": "construct", "o": "o1"}, {"op": "call", "call": call},
+               {"op": "explore", "call": call, "paths": ["o1.a", "o1.s.x"], "max_paths": 4000}]
+        out.append({"id": "S14/witness/rootorder/%d" % t, "world": world, "ops": ops, "tags": []})
     # a NON-RANDOM member object whose own block its current values violate: the block takes no part, the member's fields are
     # constants - the range inferred for the owner's fields must not be narrowed by that block
     for t in range(2 if tier == "quick" else 6):
